@@ -108,6 +108,9 @@ def gen_params(rnd, keys):
         elif r == 1: prefix = k[:rnd.randrange(len(k) + 1)]
         elif r == 2: prefix = k[:k.rfind("/") + 1]
         else: prefix = k[:k.find("/") + 1] if "/" in k else k[:1]
+    if rnd.random() < 0.07:
+        # a prefix whose directory part is no path: the prefix of no key (the listing is empty, not an error)
+        prefix = rnd.choice(["a//b", "../x", "a/./b", "a/../a/", "./", "a//", "//", "a/b/../", "../", "a/../../x"])
     delim = rnd.choice(["", "", "/", "/", "/", "-", "ab", ".", "a"])
     marker = ""
     r = rnd.randrange(6)
